@@ -104,6 +104,12 @@ def oracle_c02(line, case, stats, allc, lines):
     """chunk-boundary invariance across the members of a chunking group (checked once, at member .0)"""
     cid = case['id']; g = group_of(cid)
     if g is None or not cid.endswith('.0') or not g.startswith('g'): return []
+    if line.startswith('L1 ') and ' remove=1' in line:
+        # the level-1 policy toggles should_emit_content() by a call counter; when the dispatcher polls it (at lexed tags, at
+        # chunk ends) then depends on chunking -- no handler of the real rewriter behaves like that (content removal follows
+        # the open-element stack), so this configuration is outside C02's quantifier
+        stats['skipped_counter_driven_removal_policy'] = stats.get('skipped_counter_driven_removal_policy', 0) + 1
+        return []
     if text_mutator_depends_on_fragmentation(line):
         stats['skipped_fragmentation_dependent_scripts'] = stats.get('skipped_fragmentation_dependent_scripts', 0) + 1
         return []
@@ -112,7 +118,10 @@ def oracle_c02(line, case, stats, allc, lines):
     j = 0
     while '%s.%d' % (g, j) in allc:
         c = allc['%s.%d' % (g, j)]; l = lines['%s.%d' % (g, j)]
-        view = (l1_view(c) if l.startswith('L1') else l2_view(l, c), total_out(c), sorted(set(obslog.p_results(c))))
+        failed = any(r not in ('ok', None) for r in obslog.p_results(c))
+        # a run that ends in an error has no "final output": how much of the consumed input had been flushed when the error
+        # struck depends on where the writes ended (C01/C11 speak about that prefix); events and the error are still compared
+        view = (l1_view(c) if l.startswith('L1') else l2_view(l, c), None if failed else total_out(c), next((r for r in obslog.p_results(c) if r not in ('ok', None)), 'ok'))
         # exactly one last_in_text_node per text node
         if not l.startswith('L1'):
             for key, seq in view[0][0].items():
